@@ -36,41 +36,40 @@ theorem formatValue_ok {c : Char} {tp : String} {parent : Nat} {v : Val} {p : Op
   have hint : ∀ n, p = some n → c ∈ intCvt → n ≤ INT_MAX - 3 := fun n h1 h2 => hp n h1 (by simpa using h2)
   rcases hm with ⟨rfl, rfl⟩ | ⟨rfl, rfl⟩ | ⟨rfl, rfl⟩ | ⟨rfl, rfl⟩ | ⟨rfl, rfl⟩ | ⟨rfl, rfl⟩ | ⟨rfl, rfl⟩ | ⟨rfl, rfl⟩ | ⟨rfl, rfl⟩ |
     ⟨rfl, rfl⟩ | ⟨rfl, rfl⟩ | ⟨rfl, rfl⟩ | ⟨rfl, rfl⟩ | ⟨rfl, rfl⟩ | ⟨rfl, rfl⟩ | ⟨rfl, rfl⟩ | ⟨rfl, rfl⟩
-  -- o x X d i u
-  iterate 6
-    simp only [okFor, if_true] at hv
-    obtain ⟨n, rfl⟩ := hv
-    unfold formatValue
-    simp only [Char.reduceEq, or_false, false_or, or_true, true_or, if_true, if_false, decide_true, decide_false, Bool.not_true, Bool.false_eq_true]
-    cases p with
-    | none => rfl
-    | some q =>
-      have := hint q rfl (by simp [intCvt])
-      simp only []
-      rw [if_neg (by omega)]
-  -- e E f F g G
-  iterate 6
-    simp only [okFor, String.reduceEq, if_true, if_false] at hv
-    unfold formatValue
-    simp only [Char.reduceEq, or_false, false_or, or_true, true_or, if_true, if_false]
-    rcases hv with rfl | ⟨n, rfl, hlt⟩
-    · rfl
-    · simp only []
-      rw [if_neg (by omega)]
-  -- c
-  · simp only [okFor, String.reduceEq, if_true, if_false] at hv
-    unfold formatValue
-    simp only [Char.reduceEq, or_false, false_or, or_true, true_or, if_true, if_false]
-    rcases hv with rfl | ⟨n, rfl, h0, h1⟩
-    · rfl
-    · simp only []
-      rw [if_neg (by omega)]
-  -- s r a
-  iterate 3
-    unfold formatValue
-    simp only [Char.reduceEq, or_false, false_or, or_true, true_or, if_true, if_false]
-  -- %
-  · exact absurd rfl hn
+  all_goals first
+    | exact absurd rfl hn                                   -- `%`
+    | (-- s r a
+       unfold formatValue
+       simp only [Char.reduceEq, or_false, false_or, or_true, true_or, if_true, if_false]
+       done)
+    | (-- d i u o x X
+       simp only [okFor, if_true] at hv
+       obtain ⟨n, rfl⟩ := hv
+       unfold formatValue
+       simp only [Char.reduceEq, or_false, false_or, or_true, true_or, if_true, if_false, decide_true, decide_false, Bool.not_true,
+         Bool.false_eq_true]
+       cases p with
+       | none => rfl
+       | some q =>
+         have := hint q rfl (by simp [intCvt])
+         simp only []
+         rw [if_neg (by omega)])
+    | (-- e E f F g G
+       simp only [okFor, String.reduceEq, if_true, if_false] at hv
+       unfold formatValue
+       simp only [Char.reduceEq, or_false, false_or, or_true, true_or, if_true, if_false]
+       rcases hv with rfl | ⟨n, rfl, hlt⟩
+       · rfl
+       · simp only []
+         rw [if_neg (by omega)])
+    | (-- c
+       simp only [okFor, String.reduceEq, if_true, if_false] at hv
+       unfold formatValue
+       simp only [Char.reduceEq, or_false, false_or, or_true, true_or, if_true, if_false]
+       rcases hv with rfl | ⟨n, rfl, h0, h1⟩
+       · rfl
+       · simp only []
+         rw [if_neg (by omega)])
 
 /-! ## numeric side conditions -/
 
